@@ -532,7 +532,7 @@ func (rt resultGrouped) Extract(cw containerWriter, decorated bool, v reflect.Va
 	}
 
 	if decorated {
-		cw.submitDecoratedGroupedValue(rt.Group, rt.Type, v)
+		cw.submitDecoratedGroupedValue(rt.Group, rt.Type.Elem(), v)
 		return
 	}
 	for i := 0; i < v.Len(); i++ {
